@@ -20,7 +20,8 @@ let join l = String.concat ";" l
 
 (* ---------------- ArrayList *)
 let al_op t = match split ':' t with
-  | ["pb"; v] -> AlPush (ios v) | ["er"; k] -> AlErase (nat_of_int (ios k)) | ["pg"] -> AlPurge | ["cl"] -> AlClear
+  | ["pb"; v] | ["pba"; _; v] -> AlPush (ios v) | ["er"; k] -> AlErase (nat_of_int (ios k)) | ["pg"] -> AlPurge | ["cl"] -> AlClear
+  | ["seta"; i; _; v] -> AlSet (nat_of_int (ios i), ios v) | ["cpy"] | ["cpyd"] | ["cpya"] -> AlCopy
   | ["set"; i; v] -> AlSet (nat_of_int (ios i), ios v) | ["hold"; k] -> AlHold (nat_of_int (ios k))
   | _ -> failwith ("bad al op " ^ t)
 let al_obs ((n, l), h) = Printf.sprintf "%d[%s]%s" (int_of_nat n) (ints l) (match h with Some v -> string_of_int v | None -> "-")
@@ -41,8 +42,12 @@ let al_ra_flags main ra =
 let run_al n ops =
   let ops = List.map al_op ops and nn = nat_of_int n in
   (let main = c11_al_run 0 nn true (c11_al_empty, None) ops in
-   let ra = c11_al_run_ra 0 nn true (c11_al_empty, None) ops in
-   let fl = if List.length ra = List.length main then al_ra_flags main ra else List.map (fun _ -> "!model-ra-len") main in
+   (* the secondary read paths are evaluated on the first 40 operations of a history (they cost O(size) big-integer operations per step) *)
+   let rec take k = function [] -> [] | x :: r -> if k = 0 then [] else x :: take (k - 1) r in
+   let ra = c11_al_run_ra 0 nn true (c11_al_empty, None) (take 40 ops) in
+   let mainp = take 40 main in
+   let flp = if List.length ra = List.length mainp then al_ra_flags mainp ra else List.map (fun _ -> "!model-ra-len") mainp in
+   let fl = flp @ List.map (fun _ -> "") (List.filteri (fun i _ -> i >= List.length flp) main) in
    join (List.map2 (fun m f -> show_res al_obs m ^ f) main fl)),
   join (List.map (show_opt al_obs) (c11_als_run ([], None) ops)),
   join (List.map (show_res al_obs) (c11_alo_run 0 nn (c11_alo_empty, None) ops)),
@@ -51,7 +56,8 @@ let run_al n ops =
 (* ---------------- SLList *)
 let bi s = (s = "1")
 let sl_op t = match split ':' t with
-  | ["pb"; i; v] -> SlPushBack (bi i, ios v) | ["pf"; i; v] -> SlPushFront (bi i, ios v) | ["pop"; i] -> SlPopFront (bi i)
+  | ["pb"; i; v] | ["pbe"; i; _; v] -> SlPushBack (bi i, ios v) | ["pf"; i; v] | ["pfe"; i; _; v] -> SlPushFront (bi i, ios v) | ["pop"; i] -> SlPopFront (bi i)
+  | ["minse"; i; k; _; v] -> SlMIns (bi i, nat_of_int (ios k), ios v)
   | ["cl"; i] -> SlClear (bi i) | ["mins"; i; k; v] -> SlMIns (bi i, nat_of_int (ios k), ios v)
   | ["mrem"; i; k] -> SlMRem (bi i, nat_of_int (ios k)) | ["mend"; i; v] -> SlMInsEnd (bi i, ios v)
   | ["iaft"; i; k; v] -> SlIAfter (bi i, nat_of_int (ios k), ios v) | ["idel"; i; k] -> SlIDel (bi i, nat_of_int (ios k))
@@ -71,7 +77,8 @@ let run_sl ops =
 
 (* ---------------- lru *)
 let lru_op t = match split ':' t with
-  | ["ins"; k; v] -> LruInsert (nat_of_int (ios k), ios v) | ["touch"; k] | ["ins1"; k] -> LruTouch (nat_of_int (ios k))
+  | ["ins"; k; v] | ["insa"; k; _; v] -> LruInsert (nat_of_int (ios k), ios v) | ["touch"; k] | ["ins1"; k] | ["toucha"; k] -> LruTouch (nat_of_int (ios k))
+  | ["cpy"] | ["cpyd"] | ["cpya"] -> LruCopy
   | ["popf"] -> LruPopFront | ["popb"] -> LruPopBack | ["rsz"; n] -> LruResize (nat_of_int (ios n)) | ["cl"] -> LruClear
   | _ -> failwith ("bad lru op " ^ t)
 let lru_obs (((r, n), fb), fs) =
@@ -89,7 +96,9 @@ let run_lru nk ops =
 
 (* ---------------- ReservedVector *)
 let rv_op t = match split ':' t with
-  | [("pb" | "pbm" | "eb"); i; v] -> RvPush (bi i, ios v) | ["pop"; i] -> RvPop (bi i) | ["rsz"; i; k] -> RvResize (bi i, nat_of_int (ios k))
+  | [("pb" | "pbm" | "eb"); i; v] | [("pbe" | "ebe"); i; _; v] -> RvPush (bi i, ios v)
+  | ["fille"; i; _; v] -> RvFill (bi i, ios v) | ["swapr"; _] -> RvSwap
+  | [("swaps" | "asgs" | "cpyc"); i; sz] -> RvResize (bi i, nat_of_int (ios sz))        (* identity: resize to the current size *) | ["pop"; i] -> RvPop (bi i) | ["rsz"; i; k] -> RvResize (bi i, nat_of_int (ios k))
   | ["mkd"; i; c] -> RvMake (bi i, nat_of_int (ios c), 0)
   | ["il"; i; k] -> RvFrom (bi i, List.init (ios k) (fun j -> j + 1))
   | ["cl"; i] -> RvClear (bi i) | ["set"; i; j; v] -> RvSet (bi i, nat_of_int (ios j), ios v) | ["fill"; i; v] -> RvFill (bi i, ios v)
@@ -119,7 +128,7 @@ let run_rv n ops =
 (* ---------------- BitSetVector *)
 let bop = function "and" | "andb" -> BvAnd | "or" | "orb" -> BvOr | _ -> BvXor
 let bv_op t = let n s = nat_of_int (ios s) in match split ':' t with
-  | ["rsz"; k; v] -> BvResize (n k, bi v) | ["cl"] -> BvClear | ["sall"] -> BvSetAll | ["uall"] -> BvUnsetAll
+  | ["rsz"; k; v] -> BvResize (n k, bi v) | ["rszd"; k] -> BvResize (n k, false) | ["set1"; i; j] -> BvSet (n i, n j, true) | ["cl"] -> BvClear | ["sall"] -> BvSetAll | ["uall"] -> BvUnsetAll
   | [("set" | "sidx"); i; j; v] -> BvSet (n i, n j, bi v) | ["rbit"; i; j] -> BvSet (n i, n j, false) | ["flip"; i; j] -> BvFlipBit (n i, n j)
   | ["bset"; i] -> BvSetBlock (n i) | ["breset"; i] -> BvResetBlock (n i) | ["bflip"; i] -> BvFlipBlock (n i)
   | ["abool"; i; v] -> BvAssignBool (n i, bi v) | ["abits"; i; b] -> BvAssignBits (n i, bits_of_string b)
@@ -143,10 +152,10 @@ let () =
     let line = String.trim (input_line ic) in
     let t = List.filter (fun s -> s <> "") (split ' ' line) in
     let (m, s, o, dp) = match t with
-      | "al" :: n :: ops -> run_al (ios n) ops
+      | "al" :: n :: ops -> run_al (ios n mod 1000) ops
       | "sl" :: _ :: ops -> run_sl ops
-      | "lru" :: nk :: ops -> run_lru (ios nk) ops
-      | "rv" :: n :: ops -> run_rv (ios n) ops
+      | "lru" :: nk :: ops -> run_lru (ios nk mod 1000) ops
+      | "rv" :: n :: ops -> run_rv (ios n mod 1000) ops
       | "bv" :: bs :: ops -> run_bv (ios bs) ops
       | _ -> ("UNKNOWN", "UNKNOWN", "UNKNOWN", "-") in
     print_string m; print_string " ## "; print_string s; print_string " ## "; print_string o; print_string " ## "; print_endline dp
